@@ -39,22 +39,29 @@ open TapkeeVerif
     (for `ratio ≥ 0`, the only case `selectLandmarks` lets through). -/
 def landmarkCount (N : Nat) (ratio : Rat) : Nat := (((N : Nat) : Rat) * ratio).floor.toNat
 
-/-- `2^e` as a rational, `e` an integer -/
-def pow2 (e : Int) : Rat := (2 : Rat) ^ e
+/-- `2^e` as a rational, `e` an integer (through natural powers, so that positivity is elementary) -/
+def pow2 (e : Int) : Rat :=
+  if 0 ≤ e then (((2 : Nat) ^ e.toNat : Nat) : Rat) else 1 / (((2 : Nat) ^ (-e).toNat : Nat) : Rat)
 
-/-- round a positive rational to the nearest rational with a 53-bit significand, ties to even
-    (IEEE-754 binary64 multiplication/division result in the normal range; no overflow/underflow modelled). -/
-def rne53Pos (q : Rat) : Rat :=
-  -- first guess of the exponent from the bit lengths, then corrected so that 2^52 ≤ q / 2^e < 2^53
+/-- the exponent `e` of the 53-bit grid `2^e·ℤ` on which a positive `q` is rounded:
+    a first guess from the bit lengths, corrected so that `2^52 ≤ q / 2^e < 2^53` -/
+def rneExp (q : Rat) : Int :=
   let e0 : Int := (Nat.log2 q.num.toNat : Int) - (Nat.log2 q.den : Int) - 52
   let e1 : Int := if q / pow2 e0 < pow2 52 then e0 - 1 else e0
-  let e : Int := if pow2 53 ≤ q / pow2 e1 then e1 + 1 else e1
+  if pow2 53 ≤ q / pow2 e1 then e1 + 1 else e1
+
+/-- round `q` to the nearest point of the grid `2^e·ℤ`, ties to the even multiple -/
+def roundAt (e : Int) (q : Rat) : Rat :=
   let t := q / pow2 e
   let m : Int := t.floor
   let frac := t - (m : Rat)
   let half : Rat := 1 / 2
   let m' : Int := if half < frac then m + 1 else if frac < half then m else if m % 2 = 0 then m else m + 1
   (m' : Rat) * pow2 e
+
+/-- round a positive rational to the nearest rational with a 53-bit significand, ties to even
+    (IEEE-754 binary64 multiplication/division result in the normal range; no overflow/underflow modelled). -/
+def rne53Pos (q : Rat) : Rat := roundAt (rneExp q) q
 
 /-- IEEE-754 binary64 rounding (nearest, ties to even) of an exact rational, normal range -/
 def rne53 (q : Rat) : Rat :=
